@@ -18,8 +18,10 @@ import (
 	"path/filepath"
 	"sync"
 	"testing"
+	"time"
 
 	"github.com/vicanso/pike/config"
+	"github.com/vicanso/pike/store"
 	"pgregory.net/rapid"
 
 	"verif/harness/internal/vstat"
@@ -143,4 +145,120 @@ func execC10Open(sc c10Open) *vstat.Outcome {
 
 func TestC10StoreOpen(t *testing.T) {
 	vstat.Run(t, "C10", "netw", genC10Open, execC10Open)
+}
+
+// ---------------------------------------------------------------------
+// slow store: every call takes a while (a remote store). A record that is not in
+// memory is looked up by the first request while further requests for the key
+// arrive; all of them must be answered.
+
+type c10Slow struct {
+	Kind    string `json:"kind"`    // hfp (the record is a hit-for-pass marker) | hit
+	Burst   int    `json:"burst"`   // concurrent requests after the entry left memory
+	GapMs   int    `json:"gapMs"`   // stagger between them
+	DelayMs int    `json:"delayMs"` // how long a store call takes
+}
+
+type slowStore struct {
+	rtStore
+	delay time.Duration
+}
+
+func (s *slowStore) Get(key []byte) ([]byte, error) {
+	time.Sleep(s.delay)
+	return s.rtStore.Get(key)
+}
+func (s *slowStore) Set(key []byte, data []byte, ttl time.Duration) error {
+	time.Sleep(s.delay / 4)
+	return s.rtStore.Set(key, data, ttl)
+}
+
+const c10sAddr = "127.0.0.10:0"
+
+func genC10Slow(t *rapid.T) c10Slow {
+	return c10Slow{
+		Kind:    rapid.SampledFrom([]string{"hfp", "hfp", "hit"}).Draw(t, "kind"),
+		Burst:   rapid.IntRange(2, 5).Draw(t, "burst"),
+		GapMs:   rapid.SampledFrom([]int{0, 5, 15, 30}).Draw(t, "gapMs"),
+		DelayMs: rapid.SampledFrom([]int{20, 40, 80}).Draw(t, "delayMs"),
+	}
+}
+
+func execC10Slow(sc c10Slow) *vstat.Outcome {
+	out := &vstat.Outcome{}
+	c10oOnce.Do(func() {
+		c10oUp = newUpstream("c10o")
+		c10oCl = newClient()
+		d, _ := os.MkdirTemp(".", "c10-store-")
+		c10oDir, _ = filepath.Abs(d)
+		_ = os.WriteFile(filepath.Join(c10oDir, "regular-file"), []byte("not a directory"), 0o644)
+	})
+	c10oSeq++
+	n := c10oSeq
+	name := fmt.Sprintf("c10s-%d", n)
+	url := "verifmem://" + name
+	store.VerifRegisterStore(url, &slowStore{rtStore: rtStore{data: map[string]rtRec{}}, delay: time.Duration(sc.DelayMs) * time.Millisecond})
+	defer store.VerifUnregisterStore(url)
+	cfg := &config.PikeConfig{
+		Caches:    []config.CacheConfig{{Name: name, Size: 1, HitForPass: "5m", Store: url}},
+		Upstreams: []config.UpstreamConfig{{Name: "c10oup", Servers: []config.UpstreamServerConfig{{Addr: c10oUp.URL()}}}},
+		Locations: []config.LocationConfig{{Name: "c10oloc", Upstream: "c10oup"}},
+		Servers:   []config.ServerConfig{{Addr: c10sAddr, Locations: []string{"c10oloc"}, Cache: name}},
+	}
+	if err := applyConfig(cfg); err != nil {
+		out.Inconclusive = true
+		return out
+	}
+	addr := listenAddr(c10sAddr)
+	body := genBytes(300, "text", uint32(n))
+	spec := fmt.Sprintf("c10s-%d", n)
+	hdr := [][2]string{{"Content-Type", "text/plain"}}
+	if sc.Kind == "hit" {
+		hdr = append(hdr, [2]string{"Cache-Control", "max-age=300"})
+	}
+	c10oUp.setSpec(spec, &respSpec{Status: 200, Headers: hdr, Body: body})
+	defer func() {
+		c10oUp.mu.Lock()
+		delete(c10oUp.specs, spec)
+		c10oUp.logs = nil
+		c10oUp.mu.Unlock()
+	}()
+	cl := &http.Client{Transport: c10oCl.Transport, Timeout: 6 * time.Second}
+	get := func(uri string) *clientResp {
+		return do(cl, reqSpec{Method: "GET", Addr: addr, Host: "c10s.test", URI: uri, Header: http.Header{"X-Spec": []string{spec}}})
+	}
+	key := fmt.Sprintf("/c10s/%d/k", n)
+	if r := get(key); r.Err != "" || r.Code != 200 {
+		out.Violate("C10", "not-answered", "first request: err %q status %d", r.Err, r.Code)
+		return out
+	}
+	// another key pushes the entry out of the one-entry memory; its record stays in the store
+	if r := get(fmt.Sprintf("/c10s/%d/other", n)); r.Err != "" || r.Code != 200 {
+		out.Violate("C10", "not-answered", "request for the other key: err %q status %d", r.Err, r.Code)
+		return out
+	}
+	var wg sync.WaitGroup
+	res := make([]*clientResp, sc.Burst)
+	for i := range res {
+		wg.Add(1)
+		go func(i int) {
+			defer wg.Done()
+			time.Sleep(time.Duration(i*sc.GapMs) * time.Millisecond)
+			res[i] = get(key)
+		}(i)
+	}
+	wg.Wait()
+	for i, r := range res {
+		if r.Err != "" || r.Code != 200 || !bytes.Equal(r.Body, body) {
+			out.Violate("C10", "not-answered", "request %d of %d that arrived while the store (every call takes %d ms) was answering the lookup of a stored %s record: err %q status %d", i, sc.Burst, sc.DelayMs, sc.Kind, r.Err, r.Code)
+		}
+	}
+	out.NonTrivial = true
+	out.Class("record_" + sc.Kind)
+	out.Evals = sc.Burst + 2
+	return out
+}
+
+func TestC10SlowStore(t *testing.T) {
+	vstat.Run(t, "C10", "netw", genC10Slow, execC10Slow)
 }
